@@ -117,7 +117,7 @@ def _graph_params(ctx: Ctx, fi: FuncInfo) -> List[str]:
 
 @rule('R3', 'a graph derived from a graph argument is constructed with that argument\'s top')
 def r3(ctx: Ctx) -> RuleReport:
-    rep = RuleReport('R3', r3.title, floor=4)
+    rep = RuleReport('R3', r3.title, floor=2)
     for fi in ctx.repo.all_functions():
         if fi.cls is not None and fi.cls.name == 'Graph':
             continue
@@ -234,6 +234,35 @@ R11_FROZEN = {
 }
 
 
+def _only_feeds_sort_key(ctx: Ctx, fi: FuncInfo, test: ast.AST) -> bool:
+    """The membership test only contributes to the tuple a sort-key function returns (a function handed to sorted/sort as key=,
+    directly or through functools.partial)."""
+    rets = [n for n in walk_local(fi.node) if isinstance(n, ast.Return) and n.value is not None]
+    if not rets or not all(isinstance(r.value, ast.Tuple) for r in rets):
+        return False
+    used_as_key = False
+    for f in ctx.repo.all_functions():
+        for c in walk_local(f.node):
+            if not isinstance(c, ast.Call):
+                continue
+            cands = [k.value for k in c.keywords if k.arg == 'key'] + [a for a in c.args]
+            for v in cands:
+                if isinstance(v, ast.Name) and v.id == fi.name and (f.fq == (fi.parent.fq if fi.parent else None) or fi.parent is None):
+                    used_as_key = True
+                if isinstance(v, ast.Call) and norm(v.func) in ('partial', 'functools.partial') and v.args and norm(v.args[0]) == fi.name:
+                    used_as_key = True
+            if isinstance(c, ast.Call) and norm(c.func) in ('partial', 'functools.partial') and c.args and norm(c.args[0]) == fi.name:
+                used_as_key = True
+    if not used_as_key:
+        return False
+    # the test's value flows into a name / directly into the returned tuple, never into a branch condition
+    pm = ctx.repo.parent_map(fi.node)
+    par = pm.get(id(test))
+    while isinstance(par, (ast.BoolOp, ast.UnaryOp, ast.IfExp)) and not (isinstance(par, ast.IfExp) and par.test is test):
+        test, par = par, pm.get(id(par))
+    return isinstance(par, (ast.Assign, ast.Tuple, ast.Return))
+
+
 def _var_keyed(t: T) -> bool:
     for a in t:
         if a[0] == 'set' and has(a[1], 'Var'):
@@ -263,6 +292,8 @@ def r11(ctx: Ctx) -> RuleReport:
                 key = f'{fi.module.name}:{fi.qualname}: {kind} {norm(n)}'
                 if has(kt, 'Atom'):
                     fz = R11_FROZEN.get(fi.fq)
+                    if fz is None and _only_feeds_sort_key(ctx, fi, n):
+                        fz = R11_FROZEN['penman.layout:rearrange.sort_key']
                     if fz:
                         rep.exception(key, fi.loc(n), fz)
                     else:
@@ -290,6 +321,9 @@ def may_unproven(cfg: CFG, accept: Set[Tuple[str, bool]], killers: Set[str]) -> 
             out = set()
             for s in IN[n]:
                 s2 = s
+                if node.kind == 'for' and lab == 'F' and isinstance(getattr(node.ast, 'iter', None), ast.Call) \
+                        and norm(node.ast.iter.func) in ('count', 'itertools.count'):
+                    continue                # an endless counter: the loop is only left by break
                 if node.kind in ('stmt', 'for') and not (node.kind == 'for' and lab == 'F'):
                     if (assigned_names(node.ast) | mutated_bases(node.ast)) & killers:
                         s2 = 'U'
@@ -826,6 +860,27 @@ def r38(ctx: Ctx) -> RuleReport:
     st = stores[0]
     var = norm(st.targets[0].slice)
     facts = facts_ex(ctx, fi, st)
+    # the candidates may come out of a local generator that applies the checks:  for var, ... in _candidates(g, model): agenda[var] = ...
+    if not any(f.startswith(f'{var} not in ') or f.startswith(f'{var} in ') for f, _ in facts):
+        for lp in [a for a in _ancestors(pm, st) if isinstance(a, ast.For) and isinstance(a.iter, ast.Call)]:
+            gens = [t.func for t in ctx.cg.resolve_call(lp.iter, fi) if t.kind == 'func' and t.func.module.name == fi.module.name
+                    and any(isinstance(x, ast.Yield) for x in walk_local(t.func.node))]
+            tnames = [norm(e) for e in lp.target.elts] if isinstance(lp.target, ast.Tuple) else []
+            if len(gens) == 1 and var in tnames:
+                gen = gens[0]
+                ys = [x for x in walk_local(gen.node) if isinstance(x, ast.Yield) and isinstance(x.value, ast.Tuple) and len(x.value.elts) == len(tnames)]
+                garg = [i for i, a in enumerate(lp.iter.args) if norm(a) == gp]
+                if len(ys) == 1 and garg:
+                    ypm = ctx.repo.parent_map(gen.node)
+                    yst = ys[0]
+                    while not isinstance(yst, ast.stmt):
+                        yst = ypm[id(yst)]
+                    var = norm(ys[0].value.elts[tnames.index(var)])
+                    fi, st, gp = gen, yst, gen.positional[garg[0]]
+                    cfg = CFG(fi.node)
+                    pm = ctx.repo.parent_map(fi.node)
+                    facts = facts_ex(ctx, fi, st)
+                    break
     fx = None
     for f, pol in facts:
         if (f.startswith(f'{var} not in ') and pol) or (f.startswith(f'{var} in ') and not pol):
